@@ -836,3 +836,61 @@ def returned_after(ctx, fn, arm_event=None, arm_edge=None, P=None):
     for q, cur, bid in finals:
         vals |= set(q[2])
     return vals
+
+
+def incr_of(e):
+    """(lvalue tree, +1 / -1) if the event steps an lvalue by one in any
+    spelling (x++, ++x, x += 1, x = x + 1, and the decrements), else None."""
+    k = e.get("e")
+    if k == "inc":
+        return e["x"], (1 if e.get("op") == "++" else -1)
+    if k == "asg":
+        op, rhs = e.get("op"), e.get("rhs")
+        if op in ("+=", "-=") and const_val(rhs) == 1:
+            return e["lhs"], (1 if op == "+=" else -1)
+        if op == "=":
+            r = strip_casts(rhs)
+            if isinstance(r, dict) and r.get("k") == "bin" and r.get("op") in ("+", "-"):
+                lk = key(e["lhs"])
+                if key(r["l"]) == lk and const_val(r["r"]) == 1:
+                    return e["lhs"], (1 if r["op"] == "+" else -1)
+                if r["op"] == "+" and key(r["r"]) == lk and const_val(r["l"]) == 1:
+                    return e["lhs"], 1
+    return None
+
+
+def is_incr(e, lv_key=None, by=None):
+    r = incr_of(e)
+    if r is None:
+        return False
+    return (lv_key is None or key(r[0]) == lv_key) and (by is None or r[1] == by)
+
+
+def incr_events(fn, lv_key=None, by=None):
+    """[(block, index, event as an inc event)] for every step-by-one of lv_key."""
+    out = []
+    for b, i, e in fn.events():
+        r = incr_of(e)
+        if r is not None and (lv_key is None or key(r[0]) == lv_key) and (by is None or r[1] == by):
+            out.append((b, i, e if e["e"] == "inc" else {"e": "inc", "x": r[0], "op": "++" if r[1] > 0 else "--", "l": e["l"], "_of": e}))
+    return out
+
+
+def value_source(fn, tree):
+    """Key of an expression, seen through one level of single-definition
+    temporaries: a plain local that is assigned exactly once in the function
+    (`t = E` or `T t = E`) is replaced by the key of E.  Lets a rule name the
+    value that reaches a site whether or not the code names it first."""
+    t = strip_casts(tree)
+    if isinstance(t, dict) and t.get("k") == "var" and t.get("kind") == "local":
+        defs = []
+        for b, i, e in fn.events():
+            if e["e"] == "asg" and key(e["lhs"]) == t["n"]:
+                defs.append(e["rhs"] if e["op"] == "=" else None)
+            elif e["e"] == "decl" and e["n"] == t["n"] and "init" in e:
+                defs.append(e["init"])
+            elif e["e"] == "inc" and key(e["x"]) == t["n"]:
+                defs.append(None)
+        if len(defs) == 1 and defs[0] is not None:
+            return key(defs[0])
+    return key(tree)
